@@ -31,6 +31,7 @@ CONSTANTS Kinds,        \* matcher kinds of the "single" behaviours
           FullRegs,     \* histories up to this many registrations: all of them
           MaxRegs,      \* longer ones up to this many: sampled
           SampleMod,    \* sequence: keep 1 of SampleMod[n] successors at level n > FullRegs
+          SampleModEnv, \* the same for histories with a changed default matcher (all levels)
           BigLen
 
 \* ---------------------------------------------------------------- vocabulary
@@ -81,8 +82,9 @@ PatsOfLen(n) == {[i \in 1..n |-> MkElem(f[i], i)] : f \in [1..n -> ElemChoices]}
 BigPool == {p \in UNION {PatsOfLen(n) : n \in 1..BigLen} : p[1].k # "optional"}
 
 \* ---------------------------------------------------------------- the state space
-VARIABLES ph, st, hist, nreg, nfun, h
-vars == <<ph, st, hist, nreg, nfun, h>>
+VARIABLES ph, st, hist, nreg, nfun, h,
+          texts, look    \* the lookups of the history and their results, computed once per state
+vars == <<ph, st, hist, nreg, nfun, h, texts, look>>
 Seed == IF "C11_SEED" \in DOMAIN IOEnv THEN atoi(IOEnv.C11_SEED) % 60000 ELSE 1
 \* hash of the choices of a history (all products stay below 2^31)
 KindCode(mk) == CASE mk = "parse" -> 0 [] mk = "cfparse" -> 1 [] mk = "re" -> 2 [] OTHER -> 3
@@ -91,6 +93,15 @@ PreCode(pre) == IF pre.a = "none" THEN 0 ELSE IF pre.a = "end" THEN 5 ELSE 1 + K
 Code(pre, ty, i, func) == ((PreCode(pre) * 3 + TypeCode(ty)) * 6 + (i - 1)) * 8 + (func - 1)
 Mix(old, code) == LET a == (old * 131 + code * 7919 + Seed) % 65521 IN (a * 31421 + 6927) % 65521
 Kept(level, hash) == level <= FullRegs \/ hash % SampleMod[level] = 0
+\* histories that begin with a changed default matcher are sampled from the second registration on
+KeptEnv(level, hash) == hash % SampleModEnv[level] = 0
+
+RECURSIVE Dedup(_,_)
+Dedup(s, acc) == IF s = <<>> THEN acc
+                 ELSE Dedup(Tail(s), IF \E k \in DOMAIN acc : acc[k] = Head(s) THEN acc ELSE Append(acc, Head(s)))
+IsReg(a) == a.a = "reg"
+TextsFor(hs) == LET regs == SelectSeq(hs, IsReg) IN Dedup(Flat([k \in DOMAIN regs |-> TextsOf(regs[k].pat)]), <<>>)
+LooksFor(s, txs) == [ti \in DOMAIN LookTypes |-> [k \in DOMAIN txs |-> Lookup(s, LookTypes[ti], txs[k])]]
 
 Act(a, mk, ty, p, text, func, res) == [a |-> a, kind |-> mk, ty |-> ty, pat |-> p, text |-> text, func |-> func, res |-> res]
 UseAct(mk)    == Act("use", mk, "", <<>>, <<>>, 0, "")
@@ -98,7 +109,7 @@ EndAct(mk)    == Act("end", mk, "", <<>>, <<>>, 0, "")
 SetDefAct(mk) == Act("setdef", mk, "", <<>>, <<>>, 0, "")
 RegAct(s, ty, p, func, res) == Act("reg", s.current, ty, p, Render(p, s.current), func, res)
 
-Init == ph = "start" /\ st = InitReg /\ hist = <<>> /\ nreg = 0 /\ nfun = 0 /\ h = 0
+Init == ph = "start" /\ st = InitReg /\ hist = <<>> /\ nreg = 0 /\ nfun = 0 /\ h = 0 /\ texts = <<>> /\ look = <<>>
 
 Single == /\ ph = "start"
           /\ \E p \in BigPool, mk \in Kinds, ty \in SingleTypes :
@@ -107,13 +118,15 @@ Single == /\ ph = "start"
                        r  == Register(s1, ty, p, 1)
                    IN /\ st' = r.st
                       /\ hist' = (IF mk = "parse" THEN <<>> ELSE <<UseAct(mk)>>) \o <<RegAct(s1, ty, p, 1, r.res)>>
+                      /\ texts' = TextsFor(hist')
+                      /\ look' = LooksFor(st', texts')
           /\ ph' = "single" /\ nreg' = 1 /\ nfun' = 1 /\ h' = h
 
 EnvDefault == /\ ph = "start"
               /\ \E mk \in Defaults \ {"parse"} :
                     /\ st' = SetDefault(st, mk)
                     /\ hist' = <<SetDefAct(mk)>>
-              /\ ph' = "hist" /\ h' = 7 /\ UNCHANGED <<nreg, nfun>>
+              /\ ph' = "hist" /\ h' = 7 /\ UNCHANGED <<nreg, nfun, texts, look>>
 
 \* an optional matcher switch, then one registration
 PreOptions(s) == {[a |-> "none", kind |-> s.current]}
@@ -126,12 +139,15 @@ RegisterStep ==
    /\ \E pre \in PreOptions(st), ty \in RegTypes, i \in DOMAIN SmallPool, func \in 1..(nfun + 1) :
          LET s1 == ApplyPre(st, pre)
              p  == SmallPool[i]
-         IN /\ Kept(nreg + 1, Mix(h, Code(pre, ty, i, func)))
+         IN /\ IF st.default = "parse" THEN Kept(nreg + 1, Mix(h, Code(pre, ty, i, func)))
+                                        ELSE KeptEnv(nreg + 1, Mix(h, Code(pre, ty, i, func)))
             /\ Renderable(p, s1.current)
             /\ h' = Mix(h, Code(pre, ty, i, func))
             /\ LET r == Register(s1, ty, p, func)
                IN /\ st' = r.st
                   /\ hist' = hist \o PreActs(pre) \o <<RegAct(s1, ty, p, func, r.res)>>
+                  /\ texts' = TextsFor(hist')
+                  /\ look' = LooksFor(st', texts')
             /\ nfun' = IF func > nfun THEN func ELSE nfun
    /\ ph' = "hist" /\ nreg' = nreg + 1
 
@@ -139,11 +155,8 @@ Next == Single \/ EnvDefault \/ RegisterStep
 Spec == Init /\ [][Next]_vars
 
 \* ---------------------------------------------------------------- lookups of a history
-RegActs == SelectSeq(hist, LAMBDA a : a.a = "reg")
-RECURSIVE Dedup(_,_)
-Dedup(s, acc) == IF s = <<>> THEN acc
-                 ELSE Dedup(Tail(s), IF \E k \in DOMAIN acc : acc[k] = Head(s) THEN acc ELSE Append(acc, Head(s)))
-LookTexts == Dedup(Flat([k \in DOMAIN RegActs |-> TextsOf(RegActs[k].pat)]), <<>>)
+RegActs == SelectSeq(hist, IsReg)
+LookTexts == texts
 Emitting == ph # "start" /\ hist # <<>> /\ hist[Len(hist)].a = "reg"
 
 \* ---------------------------------------------------------------- design-level laws
@@ -160,7 +173,7 @@ LookupFirstHit ==
           toks == LookTexts[k]
           own == st.steps[ty]
           gen == IF ty = "step" THEN <<>> ELSE st.steps["step"]
-          r == Lookup(st, ty, toks)
+          r == look[ti][k]
           hitsOwn == {i \in DOMAIN own : Match(own[i].pat, toks).ok}
           hitsGen == {i \in DOMAIN gen : Match(gen[i].pat, toks).ok}
       IN IF hitsOwn # {} THEN r.func = own[CHOOSE i \in hitsOwn : \A j \in hitsOwn : i <= j].func
@@ -170,7 +183,7 @@ LookupFirstHit ==
 TypeOrGeneric ==
    Emitting =>
    \A ti \in DOMAIN LookTypes : \A k \in DOMAIN LookTexts :
-      LET r == Lookup(st, LookTypes[ti], LookTexts[k]) IN
+      LET r == look[ti][k] IN
       r.func # 0 => \E e \in {st.steps[LookTypes[ti]][i] : i \in DOMAIN st.steps[LookTypes[ti]]}
                              \cup {st.steps["step"][i] : i \in DOMAIN st.steps["step"]} : e.func = r.func
 \* every accepted definition is found again by an exact instance of its own pattern unless an earlier
@@ -216,7 +229,7 @@ ArgsLaw(args, toks) ==
 SpansDelimit ==
    Emitting =>
    \A ti \in DOMAIN LookTypes : \A k \in DOMAIN LookTexts :
-      LET r == Lookup(st, LookTypes[ti], LookTexts[k]) IN r.func # 0 => ArgsLaw(r.args, LookTexts[k])
+      LET r == look[ti][k] IN r.func # 0 => ArgsLaw(r.args, LookTexts[k])
 \* the concrete text of a pattern splits into as many tokens as the pattern has elements that bring a blank
 RenderShape ==
    Emitting => \A k \in DOMAIN RegActs : LET a == RegActs[k] IN a.text = Render(a.pat, a.kind) /\ a.text # <<>>
@@ -225,8 +238,7 @@ RenderShape ==
 Emit == Emitting =>
         PrintT(<<"CASE", ToJson([acts  |-> hist,
                                  texts |-> LookTexts,
-                                 look  |-> [ti \in DOMAIN LookTypes |->
-                                              [k \in DOMAIN LookTexts |-> Lookup(st, LookTypes[ti], LookTexts[k])]]])>>)
+                                 look  |-> look])>>)
 
 \* ---------------------------------------------------------------- constants for the cfg files
 AllKinds   == {"parse", "cfparse", "re", "re0"}
@@ -237,6 +249,8 @@ ParseOrRe  == {"parse", "re"}
 GivenWhenStep == {"given", "when", "step"}
 GivenStep  == {"given", "step"}
 OnlyGiven  == {"given"}
-ModQuick    == <<1, 1, 300>>
-ModThorough == <<1, 1, 2000, 400, 500>>
+ModQuick       == <<1, 1, 600>>
+ModEnvQuick    == <<1, 8, 300>>
+ModThorough    == <<1, 1, 2000, 400, 500>>
+ModEnvThorough == <<1, 1, 2000, 400, 500>>
 =============================================================================
